@@ -23,7 +23,7 @@ def run(ctx: Ctx) -> None:
     ctx.trusted += ["jsonschema Draft-4 verdicts and absolute_path", "referencing.Registry"]
     ctx.not_decided += ["number of messages for combined faults"]
     I = e.interp(allow_fork=False)
-    V = lambda: pai.Inst("validator.Validator")
+    V = lambda: models.construct(e, "validator.Validator")
 
     # ---- W1 --------------------------------------------------------------------------------------------
     ctx.rule("W1", "convert_lowercase recurses into lists and dict values, lower-cases keys and strings, returns other values unchanged and builds new containers", 7)
